@@ -262,8 +262,8 @@ func tssCase(run *sim.Run, w *sim.World, caseID int) {
 		for _, am := range sa.AssignedMembers {
 			members[am.MemberID-1].des-- // one DE consumed per assignment
 		}
-		if caseID < 2 && attempt == 1 {
-			run.Sample(map[string]any{"layer": "tss", "case": caseID, "group_size": n, "threshold": threshold, "available": avail,
+		if caseID < 40 && attempt == 2 && threshold >= 2 && threshold < len(avail) {
+			samples.offer("tss", caseID, map[string]any{"layer": "tss", "case": caseID, "group_size": n, "threshold": threshold, "available": avail,
 				"signing_id": sid, "attempt": attempt, "assigned": idsOf(got)})
 		}
 	}
